@@ -5,8 +5,14 @@
                                immutable columns kept, [allowed] state pair, cancelled mark kept,
                                Creating/Running entered only by schedule / creating / started for THIS job, which is then
                                not cancelled and belongs to a committed update,
-                               attempt id changed only by a driver message for THIS job or by an instance deactivation;
-    [step_job_change]        every existing job is rewritten according to [jchange] by every good step from a [DInv] state.
+                               attempt id changed only by a driver message for THIS job or by an instance deactivation,
+                               terminal state reached only by a completion message for THIS job,
+                               rows of uncommitted updates touched only by the commit of their update;
+    [step_job_change]        every existing job is rewritten according to [jchange] by every good step from a [DInv] state
+                             ([DAux s] is in the statement for uniformity with [Deps.good_invariant]; it is not used);
+    histories                [transitions_allowed], [terminal_absorbing], [pending_never_starts], [pending_passes_ready];
+    corollaries              (a) [cancelled_never_starts(_step)] for C05, (b) [uncommitted_inert(_step)] for C41,
+                             (c) [always_run_schedulable] for C05; [group_cancelled_step] (marks only grow).
 
     The per-op characterisations of the jobs table ([mc_h], [cm_h], [gmap deact_P deact_F], append) are those of the
     [DInv] preservation proofs (DepsMC*, DepsCommit*, DepsDeactivate, DepsCreateJobs); the fragments that are buried inside
@@ -541,7 +547,7 @@ Qed.
 
 (* ------------------------------------------------------------------ histories *)
 
-Notation run_from := Cancel.run_from.
+Local Notation run_from := Cancel.run_from.
 
 Lemma good_from_app s ops1 ops2 :
   good_from s (ops1 ++ ops2) <-> good_from s ops1 /\ good_from (run_from s ops1) ops2.
@@ -806,21 +812,27 @@ Proof. intros F. rewrite Cancel.run_app. apply Cancel.anc_ids_stable; [apply Can
 (** [demo_history] (good by [demo_history_good]): job 1 is scheduled (Ready -> Running), fails; job 2 (child of 1) gets the
     cancelled mark and is completed as Cancelled by the canceller; job 3 (always_run, second update, child of 2) sits in an
     uncommitted update while job 1 fails, and is Ready with the cancelled mark at the end. *)
+Definition demo_job_view (x : job) := (j_state x, j_always x, j_cancelled x, j_attempt x).
+
 Example demo_schedule_enters :
-  option_map j_state (find_job (run (firstn 7 demo_history)) 1 1) = Some Ready /\
-  option_map j_state (find_job (run (firstn 8 demo_history)) 1 1) = Some Running.
+  option_map demo_job_view (find_job (run (firstn 7 demo_history)) 1 1) = Some (Ready, false, false, None) /\
+  option_map demo_job_view (find_job (run (firstn 8 demo_history)) 1 1) = Some (Running, false, false, Some 1).
 Proof. vm_compute. split; reflexivity. Qed.
 
+(* job 2 after its parent failed: not always_run, marked cancelled (a [cancelled_job]) *)
 Example demo_cancelled_job :
-  exists x, find_job (run (firstn 11 demo_history)) 1 2 = Some x /\ cancelled_job (run (firstn 11 demo_history)) 1 x.
-Proof. eexists. split; [vm_compute; reflexivity|]. split; [reflexivity | left; reflexivity]. Qed.
+  option_map demo_job_view (find_job (run (firstn 11 demo_history)) 1 2) = Some (Ready, false, true, None).
+Proof. vm_compute. reflexivity. Qed.
 
+(* job 3 while its update is uncommitted *)
 Example demo_uncommitted_job :
-  exists x, find_job (run (firstn 10 demo_history)) 1 3 = Some x /\ jcommitted (run (firstn 10 demo_history)) x = false.
-Proof. eexists. split; [vm_compute; reflexivity | vm_compute; reflexivity]. Qed.
+  option_map (fun x => (demo_job_view x, jcommitted (run (firstn 10 demo_history)) x)) (find_job (run (firstn 10 demo_history)) 1 3)
+  = Some ((Pending, true, false, None), false).
+Proof. vm_compute. reflexivity. Qed.
 
+(* job 3 at the end: always_run, Ready, marked cancelled, committed; attempt 7 is fresh and instance 1 is active *)
 Example demo_always_run_ready :
-  exists x y, find_job (run demo_history) 1 3 = Some x /\ j_always x = true /\ j_state x = Ready /\ j_cancelled x = true /\
-              find_attempt (run demo_history) 1 3 7 = None /\ find_inst (run demo_history) 1 = Some y /\ i_state y = IActive /\
-              jcommitted (run demo_history) x = true.
-Proof. eexists. eexists. repeat split; vm_compute; reflexivity. Qed.
+  option_map (fun x => (demo_job_view x, jcommitted (run demo_history) x)) (find_job (run demo_history) 1 3)
+  = Some ((Ready, true, true, None), true) /\
+  find_attempt (run demo_history) 1 3 7 = None /\ option_map i_state (find_inst (run demo_history) 1) = Some IActive.
+Proof. vm_compute. repeat split; reflexivity. Qed.
